@@ -224,6 +224,26 @@ def h_jws_any_key_kind():
     check(out2.raised_only(JoseError, ValueError), "jws.deserialize_json(key of any kind): only JoseError / ValueError escape")
 
 
-HARNESSES.append(h_jws_any_key_kind)
+def h_key_set_kid_any_json():
+    """Verification / decryption with a KEY SET: the token's kid header member is an arbitrary JSON value."""
+    from joserfc.jwk import KeySet
+    ks = KeySet([OctKey.import_key(sym_bytes("k1"), {"kid": "a"}), OctKey.import_key(sym_bytes("k2"), {"kid": "b"})])
+    kid = sym_json("kid")
+    which = sym_choice("api", ["jwe.decrypt_compact", "jws.deserialize_compact", "jwe.decrypt_json"])
+    if which == "jws.deserialize_compact":
+        hb = spec_utf8(spec_jsonc({"alg": "HS256", "kid": kid}))
+        out = call(jws.deserialize_compact, compact_token(hb, sym_bytes("p"), sym_bytes("s")), ks, ["HS256"])
+    elif which == "jwe.decrypt_compact":
+        hb = spec_utf8(spec_jsonc({"alg": "dir", "enc": "A128GCM", "kid": kid}))
+        out = call(jwe.decrypt_compact, _jwe_token(hb), ks, ["dir", "A128GCM"])
+    else:
+        hb = spec_utf8(spec_jsonc({"alg": "dir", "enc": "A128GCM"}))
+        value = {"protected": spec_b64u(hb).decode("ascii"), "iv": sym_str("iv"), "ciphertext": sym_str("ciphertext"), "tag": sym_str("tag"),
+                 "header": {"kid": kid}}
+        out = call(jwe.decrypt_json, value, ks, ["dir", "A128GCM"])
+    check(out.raised_only(JoseError, ValueError), "verification / decryption with a key set and a kid of any JSON type: only JoseError / ValueError escape")
+
+
+HARNESSES.append(h_key_set_kid_any_json)
 HARNESSES += JWE_HARNESSES
-THOROUGH_HARNESSES = [h_jwe_compact_ecdh_header_json_ec, h_jwe_compact_ecdh_header_json_okp, h_jwe_compact_ecdh_header_json_kw]
+THOROUGH_HARNESSES = [h_jws_any_key_kind, h_jwe_compact_ecdh_header_json_ec, h_jwe_compact_ecdh_header_json_okp, h_jwe_compact_ecdh_header_json_kw]
